@@ -214,6 +214,44 @@ class Report:
             json.dump(ev, f, indent=1, sort_keys=True)
 
 
+class RuleProxy:
+    """
+    View of a Report for running a rule set shared with another property: only the rules in `rename` are forwarded (under their new name),
+    optionally only the violations whose detail satisfies `keep`.  A construct already reported VIOLATED under the new name is not also
+    reported UNRECOGNISED by the shared rule.
+    """
+
+    def __init__(self, rep, rename, keep=None, forward_ok=True):
+        self._rep, self._rename, self._keep, self._fok = rep, rename, keep, forward_ok
+        self.n_ok = 0
+
+    def __getattr__(self, k):
+        return getattr(self._rep, k)
+
+    def ok(self, rule, construct, detail="", **k):
+        if rule in self._rename:
+            self.n_ok += 1
+            if self._fok:
+                return self._rep.ok(self._rename[rule], construct, detail, **k)
+
+    def violate(self, rule, construct, detail, *a, **k):
+        if rule in self._rename and (self._keep is None or self._keep(detail)):
+            return self._rep.violate(self._rename[rule], construct, detail, *a, **k)
+
+    def unrec(self, rule, construct, why):
+        if rule in self._rename:
+            new = self._rename[rule]
+            if any(v["rule"] == new and v["construct"] == construct for v in self._rep.violations):
+                return
+            return self._rep.unrec(new, construct, why)
+
+    def floor(self, rule, n):
+        pass
+
+    def info(self, *a, **k):
+        pass
+
+
 def load_known():
     """known_findings.json -> (set of keys, list of fixed strings). Never written at run time."""
     if not os.path.exists(KNOWN):
